@@ -1,10 +1,11 @@
 (* C13 - Rendering a copyright object is a faithful fixpoint (partial: the stability of parse
    after render is proved field class by field class - single-line, whitespace lists and single
    copyright statements for EVERY value, line lists whose first line holds a word, multi-line
-   copyright fields when every line holds a word, formatted text on policy-conformant values, extra data in decoded normal form - and an
+   copyright fields when every line holds a word, the License field on names and texts in decoded
+   normal form, formatted text on policy-conformant values, extra data in decoded normal form - and an
    extra field is proved to re-parse to exactly the text it was rendered from (the defect of the
    pinned tree, one more space of indentation per cycle, is excluded by this theorem).  NOT
-   proved: stability of the License field, that every
+   proved: that every
    paragraph rendering is free of empty lines (proved for encoded formatted values only; given
    that, the rendering is proved to split back into exactly as many paragraphs), and the
    composition into whole documents: render . parse . render = render, equality of the
@@ -39,6 +40,14 @@ Theorem C13_line_list_stable : forall raw,
   convert FLineSep (fval_dumps (convert FLineSep raw)) = convert FLineSep raw.
 Proof. exact line_list_stable. Qed.
 Print Assumptions C13_line_list_stable.
+
+(* the License field: a short name and a text in decoded normal form render to a value that parses
+   back to exactly that name and text *)
+Theorem C13_license_stable : forall n t0 trest, n <> [] -> strip n = n -> nolb n ->
+  normal_lines (t0 :: trest) -> t0 <> [] ->
+  lic_from_value (lic_dumps n (join [LF] (t0 :: trest))) = (n, join [LF] (t0 :: trest)).
+Proof. exact license_stable. Qed.
+Print Assumptions C13_license_stable.
 
 (* render . parse . render . parse = render . parse on policy-conformant formatted values *)
 Theorem C13_formatted_text_stable : forall v, policy_value v ->
